@@ -360,7 +360,9 @@ ColCanonical(cm, nreac, j) ==
     THEN (j # 1 /\ j # nreac + 1) => LexLeq(Col(cm, j - 1), Col(cm, j))
     ELSE /\ \E k \in 1..Len(cm) : cm[k][j] # 0
          /\ (j # 1 /\ j # nreac + 1) => LexLess(Col(cm, j - 1), Col(cm, j))
-RowsUsed(cm) == Canon = "loose" \/ \A k \in 1..Len(cm) : \E j \in 1..Len(cm[k]) : cm[k][j] # 0
+\* strict: every key is used; loose: at least one amount is non-zero (a problem has a composition key)
+RowsUsed(cm) == IF Canon = "loose" THEN \E k \in 1..Len(cm) : \E j \in 1..Len(cm[k]) : cm[k][j] # 0
+                ELSE \A k \in 1..Len(cm) : \E j \in 1..Len(cm[k]) : cm[k][j] # 0
 
 GenShape == \E s \in Shapes, cr \in ChargeRows, sc \in Scales :
     /\ (cr => s[3] >= 2)
